@@ -293,6 +293,9 @@ def build(sess):
     c05.check_request(sess, 'command', bool(kf.get('reproduces')))
     c05.check_request(sess, 'query', False)
     c05.check_statusbyte(sess)
+    # ... and the latch holds WITHIN a call: a helper that issues several requests transmits nothing after the first failed one
+    sess.notes_set = getattr(sess, 'notes_set', set())
+    c05.check_callers(sess)
     check_record_error(sess)
     check_frame_ast(sess)
     check_connect_disconnect(sess)
@@ -306,4 +309,6 @@ def build(sess):
 def fallback(sess):
     r = native('n_serial', 'search_latch', {})
     r['what'] = 'n_serial.search_latch'
-    return [r]
+    r2 = native('n_serial', 'search_callers', {})
+    r2['what'] = 'n_serial.search_callers (k-th request of a call fails: nothing may be transmitted afterwards)'
+    return [r, r2]
